@@ -34,16 +34,16 @@ def ladder(n_pop, ratio, laws, blank, rfi_min=3.0):
     return rfi, mef
 
 
-def to_channel(x, a0=A0):
+def to_channel(x, a0=A0, res=RES):
     """RFI -> channel number of the integer container (clipped to the detector range)"""
     if x <= 0:
         return 0
-    c = RES / a0 * math.log10(x / A1)
-    return int(min(RES - 1, max(0, round(c))))
+    c = res / a0 * math.log10(x / A1)
+    return int(min(res - 1, max(0, round(c))))
 
 
-def from_channel(c, a0=A0):
-    return A1 * 10 ** (a0 * c / RES)
+def from_channel(c, a0=A0, res=RES):
+    return A1 * 10 ** (a0 * c / res)
 
 
 def bead_sample(spec):
@@ -53,6 +53,7 @@ def bead_sample(spec):
     Returns (layout, truth) with truth = dict(labels per event, rfi, mef, fl_names)."""
     rs = np.random.RandomState(1000003 * (spec.get('stream', 0) + 1) % (2 ** 31))
     a0 = float(spec.get('decades', A0))
+    fres = list(spec.get('res') or [RES] * len(spec['laws']))
     n_pop, ratio, cv = spec['n_pop'], spec['ratio'], spec['cv']
     laws = spec['laws']
     nch = len(laws)
@@ -103,10 +104,10 @@ def bead_sample(spec):
         events = []
         for t, r in enumerate(rows):
             events.append([int(min(1023, max(0, round(r[0])))), int(min(1023, max(0, round(r[1]))))] +
-                          [to_channel(v, a0) for v in r[2:]] + [t])
-        lay = dict(datatype='I', bits=[16] * (D - 1) + [32], ranges=[1024] * (D - 1) + [2 ** 24], names=names,
+                          [to_channel(v, a0, fres[k]) for k, v in enumerate(r[2:])] + [t])
+        lay = dict(datatype='I', bits=[16] * (D - 1) + [32], ranges=[1024, 1024] + list(fres) + [2 ** 24], names=names,
                    pne=['0,0', '0,0'] + ['%g,%g' % (a0, A1)] * nch + ['0,0'], events=events, byteord='4,3,2,1', extra=extra)
-        values = [[float(e[0]), float(e[1])] + [from_channel(c, a0) for c in e[2:2 + nch]] for e in events]
+        values = [[float(e[0]), float(e[1])] + [from_channel(c, a0, fres[k]) for k, c in enumerate(e[2:2 + nch])] for e in events]
     else:
         events, values = [], []
         for t, r in enumerate(rows):
@@ -127,6 +128,7 @@ def cell_sample(spec):
     n = spec.get('n', 900)
     fl_names = list(spec.get('names') or ['FL1-H', 'FL2-H'])
     nch = len(fl_names)
+    cres = list(spec.get('res') or [RES] * nch)
     z = rs.normal(size=(n, nch + 2))
     u = rs.uniform(size=n)
     rows = []
@@ -156,9 +158,9 @@ def cell_sample(spec):
         events = []
         for t, r in enumerate(rows):
             events.append([int(min(1023, max(0, round(r[0])))), int(min(1023, max(0, round(r[1]))))] +
-                          [to_channel(v) for v in r[2:]] + [t])
+                          [to_channel(v, A0, cres[k]) for k, v in enumerate(r[2:])] + [t])
         pne_fl = '%g,%g' % (A0, A1) if not spec.get('linear_fl') else '0,0'
-        lay = dict(datatype='I', bits=[16] * (D - 1) + [32], ranges=[1024] * (D - 1) + [2 ** 24], names=names,
+        lay = dict(datatype='I', bits=[16] * (D - 1) + [32], ranges=[1024, 1024] + list(cres) + [2 ** 24], names=names,
                    pne=['0,0', '0,0'] + [pne_fl] * nch + ['0,0'], events=events, byteord='4,3,2,1', extra=extra)
     else:
         events = []
